@@ -1034,7 +1034,7 @@ fn c01_o1_stamp_recording() {
     std::mem::forget(local);
 }
 
-// @verif prop=C01,C04,C03 obl=O1 tier=quick bounds="one operation (untracked read or revision-only read, symbolic) then completion; symbolic now < 2^40"
+// @verif prop=NONE obl=O1 tier=thorough bounds="(does not terminate within 25 min: kept as a probe) one operation (untracked read or revision-only read, symbolic) then completion; symbolic now < 2^40"
 // @+ encodes="ZalsaLocal::push_query, ZalsaLocal::report_untracked_read, ZalsaLocal::report_tracked_read_revision, ActiveQueryGuard::pop, QueryStack::pop_into_revisions, ActiveQuery::prepare_completion, QueryCompletion::finish, OriginAndExtra::derived, OriginAndExtra::derived_untracked"
 /// C01-O1a/C04-O1: the completed query carries exactly the recorded stamp; its stored origin is DerivedUntracked iff an
 /// untracked read was reported (so later revisions must re-execute it), Derived otherwise; without cycle heads it is final.
